@@ -146,8 +146,10 @@ Proof.
   intros H. unfold finish_obj. destruct (gw_objs s !! g) as [t|]; [|exact H].
   assert (H1 : Inv (disarm_obj s g <| gw_objs := delete g (gw_objs (disarm_obj s g)) |>)).
   { apply Inv_set_objs; [apply Inv_disarm_obj, H|]. apply objs_ok_delete, H. }
-  destruct t.
-  - eapply Inv_ext; [exact H1|reflexivity..].
+  destruct t; [eapply Inv_ext; [exact H1|reflexivity..]|..].
+  (* the by-id slot is deleted only if it still holds g; otherwise nothing more changes *)
+  all: match goal with |- context [match ?m !! ?k with Some _ => _ | None => _ end] =>
+         destruct (m !! k) as [g'|]; [destruct (g' =? g)|]; try exact H1 end.
   - apply Inv_set_byid; [exact H1|]. apply byid_ok_delete, H.
   - apply Inv_set_byid; [exact H1|]. apply byid_ok_delete, H.
   - apply Inv_set_byid; [exact H1|]. apply byid_ok_delete, H.
@@ -606,16 +608,16 @@ Proof.
   intros [Hi Ho]. cbn [fst snd] in *. split; [apply Inv_finish_obj, Hi|exact Ho].
 Qed.
 
-Lemma buf_ok_map_dup g b :
+Lemma buf_ok_map_dup (f : N -> packet -> bool) b :
   buf_ok b ->
   buf_ok (map (fun e : option N * packet =>
                  match e with
-                 | (Some g', p) => if g' =? g then (Some g', set_dup p) else e
+                 | (Some g', p) => if f g' p then (Some g', set_dup p) else e
                  | _ => e
                  end) b).
 Proof.
   unfold buf_ok. induction 1 as [|[[g'|] p] b Hp _ IH]; cbn [map]; constructor; try exact IH; cbn [snd] in *.
-  - destruct (g' =? g); cbn [snd]; [apply sendable_set_dup, Hp|exact Hp].
+  - destruct (f g' p); cbn [snd]; [apply sendable_set_dup, Hp|exact Hp].
   - exact Hp.
 Qed.
 
@@ -631,10 +633,9 @@ Proof.
     cbv zeta. destruct Ht as [Hd Hp]. destruct data as [p|k m]; cbn [data_ok] in Hd.
     + apply good_catch. apply good_sn_send_owned; [inv_tac|apply sendable_set_dup, Hd].
       * side. apply sendable_set_dup, Hd.
-      * apply buf_ok_map_dup, H.
+      * apply (buf_ok_map_dup (fun g' q => (g' =? g) && same_packet_obj q p)), H.
     + apply good_mq_send; [inv_tac|apply ack_valid, Hd].
-      * side.
-      * apply buf_ok_map_dup, H.
+      side.
   - walk. reflexivity.
   - walk.
 Qed.
